@@ -20,10 +20,10 @@ ARMED = {
          'CFG dominance + who-may-write tables + boolean normal forms over the AST', '4 C03'),
  'C04': ('ONLY structural clauses about the Runge-Kutta sweepers and the start value: update_nodes of RungeKutta / RungeKuttaIMEX are the stage equations of a Butcher tableau; primary end point with weight row 0 and embedded one with row 1 over the same stage derivatives, last stage copied exactly when stiffly accurate; embedded wiring (genCoeffs(embedded=True) <=> ButcherTableauEmbedded, every embedded class documents an update order, AdaptivityRK takes it, estimate = |primary - embedded|); spread predictor copies u0 to every node',
          'NOT decided (numeric): order min(k, p) after k SDC sweeps, the stability function of the converged iteration, that any tableau or embedded pair has the order it documents - the integers returned by get_update_order are not checked against the tableaux (which live in qmat).',
-         'term normaliser on the stage and end-point loops (zip loops, guards in NNF), class-body table extraction over the 30 Runge-Kutta classes', '10 C04'),
+         'term normaliser on the stage and end-point loops (zip loops, guards in NNF), class-body table extraction over the 30 Runge-Kutta classes', '11.1 (C04)'),
  'C05': ('ONLY the structural clauses: the qmat generator is requested for exactly (num_nodes, node_type, quad_type, tleft, tright) and bad arguments raise; end-point flag tables and the automatic collocation update; zero-padded (M+1)x(M+1) Q and S with the generator Q / parent-class S in [1:,1:] and nothing else stored, private copies of nodes/weights, no later in-place store anywhere in the library; node distances',
          'NOT decided (numeric, produced by the external qmat package at run time): monotone nodes inside the interval, exactness of weights/Q/S on polynomials, S = row differences of Q inside qmat, affine covariance.',
-         'local-inlining normal form of CollBase.__init__, membership-table extraction, who-may-write scan over the library', '10 C05'),
+         'local-inlining normal form of CollBase.__init__, membership-table extraction, who-may-write scan over the library', '11.1 (C05)'),
  'C06': ('def-use chain of the carried value and of the block start time in run() of all three controllers, agreement of the activity predicate at all 8 sites, kept-steps slice, scale-unaware-tolerance pattern (7 known-finding sites F3)',
          'not decided: the float arithmetic itself (smallest N up to rounding), behaviour under histories of restarts. F3 (dt=0.1, Tend=10 -> 101 steps) is a recorded known finding.',
          'reaching-definition tables and guard sets on the controller run() CFGs; contradiction pattern for absolute eps thresholds', '4 C06'),
@@ -38,7 +38,7 @@ ARMED = {
          'term normaliser with interval merging of row sums + contribution order', '4 C10'),
  'C11': ('ONLY the structural clauses: every shipped space-transfer class returns a new object of the argument\'s type on the target grid and leaves the argument alone; components are treated alike (generic .components loop or arms identical up to the component name); no data-type arm is shadowed by a base-class arm; Rspace = c*Pspace^T with c = 0.5 / 1.0 (injection) in the 1-d and n-d branches, Kronecker assembly in direction order for P and R; BaseTransfer builds Pcoll/Rcoll with source/target nodes the right way round, takes the identity only for equal node SETS and applies Rcoll in restrict / Pcoll in prolong; the six copies of the Lagrange-basis block and the k-nearest-neighbour selection of transfer_helper agree',
          'NOT decided (numeric, stays with the other families): polynomial exactness, rows summing to one, restriction after prolongation = identity, FFT band-limit exactness, boundary rows of padded stencils. Three defects found by these rules were repaired (fix 02d1390, d3ee753, 328a793).',
-         'AST sibling cross-checks (arms, copies), class-hierarchy aware dispatch-chain reachability, term normaliser on the matrix assembly, flow-sensitive alias lattice on restrict/prolong', '10 C11'),
+         'AST sibling cross-checks (arms, copies), class-hierarchy aware dispatch-chain reachability, term normaliser on the matrix assembly, flow-sensitive alias lattice on restrict/prolong', '11.1 (C11)'),
  'C12': ('purity clause only: a flow-sensitive alias/view/fresh lattice over every contract method (251 methods of 99 problem classes) shows that no in-place write reaches a parameter (one level of self.helper() call-through) and that eval_f/solve_system* results are fresh',
          'not decided (numeric): residual of the solve, equality of split and unsplit right-hand sides, exact solutions. Two defects found by the rule were repaired (fixes 6214e51, 7c54d72).',
          'flow-sensitive abstract interpretation of aliasing (fresh / view / alias tags), syntax-directed', '4 C12'),
@@ -50,13 +50,13 @@ ARMED = {
          'MPI API table + rank-taint of guard sets + CFG order rules + sibling comparison', '4 C08'),
  'C15': ('ONLY the pairing and pipeline structure of ParaDiag: helper matrices compared in a local-inlining normal form (orthonormal DFT, J and J^-1 from one set of weights, forward = F @ J^-1 and backward = J @ conj(F), alpha-circulant E, per-step factor), step l receives G_inv(l, n_steps, alpha), FFT/iFFT_in_time apply the forward/backward matrix, it_ParaDiag stage order by CFG dominance with one residual->increment def-use chain, index coupling and write-after-product discipline of apply_matrix/mat_vec, S^-1 -> node solves with w[m] dt -> S -> G_inv in update_nodes',
          'NOT decided (numeric): that the transforms are mutually inverse and diagonalise the alpha-circulant matrix for all n and alpha, exactness of the diagonalisation sweeper, agreement of converged runs with sequential collocation.',
-         'normal forms by local inlining and the term normaliser (canonical loops), CFG dominance/post-dominance for the stage order', '10 C15'),
+         'normal forms by local inlining and the term normaliser (canonical loops), CFG dominance/post-dominance for the stage order', '11.1 (C15)'),
  'C16': ('open-mode discipline of every open() in fieldsIO (append-only, one truncating open), overwrite guard dominating it, header/record dtype sequences of writer and reader agree, every record read is bounded by the complete-record count',
          'not decided: bit exactness of numpy I/O, the crash-point quantifier itself (fault injection), tiling of BlockDecomposition (arithmetic identity).',
          'call-site fact tables (modes, dtypes, counts) + CFG dominance', '4 C16'),
  'C17': ('ONLY clauses whose truth is in the shape of the code: per-axis loops carry their result from axis to axis (the rule found and repaired a real defect in ChebychevHelper.itransform), forward/backward transform pairing (DCT type, default norm, multiply/divide by one normalisation; FFT normalisation over the same axes), where the interval map enters (grid, derivatives / fac^p, ultraspherical integral * fac, wavenumbers * 2 pi / L), Kronecker assembly of n-d operators in axis order and the four n-d builders as products of per-axis expansions',
          'NOT decided (numeric): agreement of every operator matrix with exact polynomial / Fourier calculus for all N, mutual inverse of conversions, sparse-vs-dense agreement, padding and mpi4py-fft paths. One defect found by C17.R1 was repaired (fix bb05198).',
-         'loop-carried def-use analysis on per-axis loops, local-inlining normal form for operator formulas, sibling cross-check of the n-d fold builders', '10 C17'),
+         'loop-carried def-use analysis on per-axis loops, local-inlining normal form for operator formulas, sibling cross-check of the n-d fold builders', '11.1 (C17)'),
  'C18': ('assembly clause only: positional pairing of weight k with offset k in the periodic arm (plus the general values-used-as-positions contradiction rule), wrap diagonals, parallel sort of weights and offsets, Kronecker-sum arity, keyword call sites',
          'not decided: the stencil weights and boundary closures (exact rational arithmetic is evaluation, not shape). One defect found by the rule was repaired (fix 1ce7787).',
          'term normaliser + contradiction pattern', '4 C18'),
@@ -91,7 +91,7 @@ def main():
     na = [{'property_id': p, 'reason': NA.get(p, UNDER)} for p in ids if p not in ARMED]
     m = {
         'version': 1,
-        'setup_cmd': '/venv/bin/python -c "import ast, networkx, sys; sys.path.insert(0, \'.\'); import sa.runner"',
+        'setup_cmd': '/venv/bin/python -c "import ast, networkx, sympy, sys; sys.path.insert(0, \'.\'); import sa.runner"',
         'hooks': {'guard': 'PYSDC_VERIF', 'enable': 'none needed: static analysis reads the source; no hook commit exists', 'baseline_off_cmd': 'cd /repo && /venv/bin/python -m pytest -ra -q -p no:cacheprovider --timeout=900 --continue-on-collection-errors', 'source_commits': [], 'add_only': True},
         'engines': [{'name': 'sa', 'path': 'sa/', 'serves_properties': sorted(ARMED), 'kind_free_text': 'repository-specific static analyser: ast program model (classes/MRO), statement CFG with dominators (networkx), term normaliser, rule tables with floors, known findings, self-test mutants'}],
         'checks': checks,
